@@ -564,6 +564,14 @@ func (r *Raft) pipelineDecode(s *followerReplication, p AppendPipeline, stopCh, 
 			peer := s.peer
 			s.peerLock.RUnlock()
 
+			// A pipelined request that failed in the transport carries no
+			// response: it is neither contact with the follower nor an answer,
+			// just the end of this pipeline.
+			if err := ready.Error(); err != nil {
+				r.logger.Error("pipelined appendEntries failed", "peer", peer, "error", err)
+				return
+			}
+
 			req, resp := ready.Request(), ready.Response()
 			appendStats(string(peer.ID), ready.Start(), float32(len(req.Entries)), r.noLegacyTelemetry)
 
